@@ -1,5 +1,8 @@
 """C18 — GFF3/GTF/BED round trip with escaping (DESIGN.md §5 C18)."""
+import re
+
 from .. import a10
+from .. import a5
 from .. import a7
 from .. import rules as R
 
@@ -10,7 +13,8 @@ EXPLANATION = (
     "and every delimiter constant the attribute readers split on, and the seqid set is exactly the complement of the "
     "spec's allowed class; (R3) GTF: the bytes the writer escapes with a backslash equal the bytes the reader accepts after "
     "a backslash, and values are always quoted; (R4) the owned GFF record is built from the lazy accessors (one path)."
-    " (R5) append-buffer discipline of the GFF/GTF line readers incl. the blank-line skip loop.")
+    " (R5) append-buffer discipline of the GFF/GTF line readers incl. the blank-line skip loop."
+    " (R6) copy before consume for the BED field scanner.")
 ASSUMPTIONS = ["percent-encoding crate semantics", "reader delimiter constants are the named DELIMITER/SEPARATOR consts (floor-checked)"]
 NOT_DECIDED = ["equality of arbitrary UTF-8 values; BED optional-column values; directive round trip"]
 
@@ -151,6 +155,23 @@ def run(ctx):
 
     ctx.rule("C18.R5", "A10 append-buffer discipline: GFF/GTF line readers reset the line buffer before every appended line (incl. the blank-line skip loop)")
     a10.discipline_rule(ctx, "C18.R5", r"^<?noodles_(gff|gtf)::", 6)
+
+    ctx.rule("C18.R6", "A5d copy before consume: a fill_buf scanner that copies window bytes to a destination copies them on every path "
+                      "that consumes a non-constant amount (a field continuing in the next window must not lose its first part)")
+    n7 = 0
+    for s7 in a5.copy_before_consume_sites(fb):
+        if not re.search(r"noodles_(bed|gff|gtf)::", s7["fn"]):
+            continue
+        n7 += 1
+        f7 = fb.fns[s7["fn"]]
+        ctx.saw_fn(f7)
+        if s7["ok"]:
+            ctx.ok("C18.R6", s7["fn"] + " :: every consuming path copies the window first", "%d append site(s)" % len(s7["appends"]), f7.loc())
+        else:
+            ctx.violation("C18.R6", "C18.R6/consume-without-copy/" + f7.root,
+                          "%s consumes window bytes on a path that does not append them to the destination although other paths do: a field that "
+                          "continues in the next fill_buf window loses everything before the last refill" % f7.root, f7.loc(s7["bad"]))
+    ctx.floor("C18.R6", "copying fill_buf scanners", n7, 1)
 
     ctx.rule("C18.R4", "owned GFF record is built from the lazy accessors (shared path)")
     fc = ctx.anchor("C18.R4", "noodles_gff::feature::record_buf::convert::<impl noodles_gff::feature::record_buf::RecordBuf>::try_from_feature_record")
